@@ -265,6 +265,22 @@ def interleave_rules(ctx, rep):
                     elif whole is None:
                         whole = arith.norm(base_, {lead_phi: "L"})
                     continue
+                if util.is_call(raw) and raw[1] in ("<std::option::Option<T> as std::cmp::PartialEq>::eq", "<std::option::Option<T> as std::cmp::PartialEq>::ne") and len(raw[2]) == 2 and list(tg) == [0]:
+                    # while s.get(L) == Some(&0): the bound test and the zero test in one
+                    ops_ = [strip(util.resolve_locals(se, b, x_)) for x_ in raw[2]]
+                    g_ = [o_ for o_ in ops_ if util.is_call(o_) and o_[1].endswith("<impl [T]>::get") and len(o_[2]) == 2]
+                    sm_ = [o_ for o_ in ops_ if o_[0] == "agg" and o_[2] == "std::option::Option" and o_[3] == 1 and len(o_[4]) == 1 and strip(o_[4][0])[:2] == ("int", 0)]
+                    if len(g_) == 1 and len(sm_) == 1 and arith.norm(g_[0][2][1], {lead_phi: "L"}) == ("sym", "L"):
+                        tests.append("s.get(L) == Some(&0)")
+                        has_zero_test = True
+                        if whole is None:
+                            whole = arith.norm(g_[0][2][0], {lead_phi: "L"})
+                        cont_on_true = raw[1].endswith("::eq")
+                        t_true, t_false = info["otherwise"], tg.get(0)
+                        if not (stay(t_true if cont_on_true else t_false) and not stay(t_false if cont_on_true else t_true)):
+                            ok_tests = False
+                            why = "the scan does not continue exactly while s.get(lead) == Some(&0)"
+                        continue
                 d = arith.norm(info["discr"], {lead_phi: "L"})
                 is_bool = d[0] in ("Eq", "Ne", "Lt", "Ge", "Le", "Gt")
                 t_true, t_false = info["otherwise"], tg.get(0)
